@@ -34,6 +34,7 @@ func checkC08(c streamCase) (Outcome, error) {
 	w := c.wf()
 	stream := c.stream()
 	out := Outcome{Classes: []string{"workflow:" + c.Workflow, "target:" + c.Target, "numcpu:" + itoa(runtime.NumCPU()), "gomaxprocs:" + itoa(c.Procs)}}
+	c.runPrior(stream, &out)
 	// sequential reference first, under recover: a stream that crashes the sequential run belongs to C04/C14
 	var vs bool
 	var es error
@@ -141,6 +142,7 @@ func genC08(t *rapid.T) streamCase {
 	c.Fast = true
 	c.Delays = drawDelays(t)
 	c.Procs = rapid.SampledFrom([]int{1, 2, 4, 16}).Draw(t, "gomaxprocs")
+	drawPrior(t, &c)
 	if rapid.IntRange(0, 2).Draw(t, "shortreads") == 0 {
 		// a concurrency-safe source may also return short reads; combined with delays this lets the
 		// workers' reads interleave inside a sample if the library does not read a sample atomically
